@@ -383,6 +383,9 @@ pub struct Produced {
     pub masks: Vec<u64>,
     /// stored seed words (for seeded objects)
     pub seeds: Vec<[u64; 8]>,
+    /// noise polynomials of key components (the phase outside the component that carries the key
+    /// material is exactly the error), as hashes
+    pub noises: Vec<u64>,
     pub secret: Option<u64>,
     /// "same state" operations: (mask hash A, mask hash B, max centred difference of c1 after removing t for BGV)
     pub pair: Option<(u64, u64, Option<u64>)>,
@@ -485,12 +488,30 @@ fn exec_fop(op: &FOp, sh: &FShared, rng: &mut Prng) -> Produced {
     let w = &sh.world;
     let ctx = &w.ctx;
     let big_ternary_space = w.spec.n >= 32;
-    let mut p = Produced { what: format!("{:?}", op), masks: vec![], seeds: vec![], secret: None, pair: None, noise: None, same_c0: None, expand_diff: None };
+    let mut p = Produced { what: format!("{:?}", op), masks: vec![], seeds: vec![], noises: vec![], secret: None, pair: None, noise: None, same_c0: None, expand_diff: None };
     let ks = |k: &KSwitchKeys, p: &mut Produced| {
         for pk in k.data().iter().flatten() {
             p.masks.push(mask_hash(pk.as_ciphertext(), ctx));
             if let Some(s) = seed_words(pk.as_ciphertext()) {
                 p.seeds.push(s);
+            }
+        }
+        // the error of decomposition component i, read off in the RNS components other than i
+        // (c0 + c1*s there is -e exactly; component i also carries the key material)
+        if w.spec.n >= 16 {
+            for entry in k.data().iter() {
+                for (i, pk) in entry.iter().enumerate() {
+                    let e = crate::objs::expand_ct(pk.as_ciphertext(), ctx);
+                    let ph = phase(w, &e, &w.sk);
+                    // read it in the last component (the special prime: never a decomposition index),
+                    // as centred values, so that equal errors compare equal whatever the component
+                    let j = ph.len() - 1;
+                    if j != i {
+                        let q = w.level_moduli(e.parms_id())[j];
+                        let centred: Vec<u64> = ph[j].iter().map(|&v| if v > q / 2 { (v as i64 - q as i64) as u64 } else { v }).collect();
+                        p.noises.push(util::h64_u64s(&centred));
+                    }
+                }
             }
         }
     };
@@ -657,6 +678,7 @@ fn judge_fresh(all: &[(usize, usize, Produced)], scheme: &str) -> Vec<(String, S
     let mut masks: BTreeMap<u64, (usize, usize, String)> = BTreeMap::new();
     let mut seeds: BTreeMap<[u64; 8], (usize, usize, String)> = BTreeMap::new();
     let mut secrets: BTreeMap<u64, (usize, usize)> = BTreeMap::new();
+    let mut noises: BTreeMap<u64, (usize, usize, usize, String)> = BTreeMap::new();
     for (t, i, p) in all {
         for m in &p.masks {
             if let Some((t0, i0, w0)) = masks.insert(*m, (*t, *i, p.what.clone())) {
@@ -678,6 +700,15 @@ fn judge_fresh(all: &[(usize, usize, Produced)], scheme: &str) -> Vec<(String, S
                         format!("operation {} of thread {} ({}) and operation {} of thread {} ({}) store the same seed", i0, t0, w0, i, t, p.what),
                     ));
                 }
+            }
+        }
+        for (k, nz) in p.noises.iter().enumerate() {
+            if let Some((t0, i0, k0, w0)) = noises.insert(*nz, (*t, *i, k, p.what.clone())) {
+                bad.push((
+                    format!("freshness/{}/noise-reused", scheme),
+                    "noise-reused".into(),
+                    format!("key component {} of operation {} of thread {} ({}) and key component {} of operation {} of thread {} ({}) carry the same error polynomial", k0, i0, t0, w0, k, i, t, p.what),
+                ));
             }
         }
         if let Some(s) = p.secret {
@@ -769,7 +800,7 @@ fn run_freshness(scn: &FScn) -> Result<(Vec<(String, String, String)>, u64, u64)
             for (t, h) in handles.into_iter().enumerate() {
                 let v = h.join().map_err(|_| "real thread panicked".to_string())?;
                 for (i, (sw, mh)) in v.into_iter().enumerate() {
-                    all.push((10 + t, i, Produced { what: "concurrent seeded symmetric encryption (real threads, OS entropy)".into(), masks: vec![mh], seeds: sw.into_iter().collect(), secret: None, pair: None, noise: None, same_c0: None, expand_diff: None }));
+                    all.push((10 + t, i, Produced { what: "concurrent seeded symmetric encryption (real threads, OS entropy)".into(), masks: vec![mh], seeds: sw.into_iter().collect(), noises: vec![], secret: None, pair: None, noise: None, same_c0: None, expand_diff: None }));
                 }
             }
         }
@@ -791,14 +822,14 @@ fn run_freshness(scn: &FScn) -> Result<(Vec<(String, String, String)>, u64, u64)
                 let (secret, sw, mh, amh) = h.join().map_err(|_| "short-lived thread panicked".to_string())?;
                 let mut masks = vec![mh];
                 masks.extend(amh);
-                all.push((20 + k, 0, Produced { what: "first operations of a short-lived thread (thread per request, OS entropy)".into(), masks, seeds: sw.into_iter().collect(), secret, pair: None, noise: None, same_c0: None, expand_diff: None }));
+                all.push((20 + k, 0, Produced { what: "first operations of a short-lived thread (thread per request, OS entropy)".into(), masks, seeds: sw.into_iter().collect(), noises: vec![], secret, pair: None, noise: None, same_c0: None, expand_diff: None }));
             }
         }
         // the two long-lived key generators themselves
         if scn.spec.n >= 32 {
             let (a, b) = (util::h64_u64s(sh.world.sk.data()), util::h64_u64s(sh_b.world.sk.data()));
-            all.push((0, 1000, Produced { what: "context A's key generator".into(), masks: vec![], seeds: vec![], secret: Some(a), pair: None, noise: None, same_c0: None, expand_diff: None }));
-            all.push((1, 1000, Produced { what: "context B's key generator".into(), masks: vec![], seeds: vec![], secret: Some(b), pair: None, noise: None, same_c0: None, expand_diff: None }));
+            all.push((0, 1000, Produced { what: "context A's key generator".into(), masks: vec![], seeds: vec![], noises: vec![], secret: Some(a), pair: None, noise: None, same_c0: None, expand_diff: None }));
+            all.push((1, 1000, Produced { what: "context B's key generator".into(), masks: vec![], seeds: vec![], noises: vec![], secret: Some(b), pair: None, noise: None, same_c0: None, expand_diff: None }));
         }
         draws = 0;
     } else if scn.threads.len() == 1 {
